@@ -95,6 +95,57 @@ class Ast:
                                    % (qual, file, len(r), [(p, q) for p, q, _ in r][:4]))
         return r[0][2]
 
+    def fn_closure(self, qual, file=None, max_depth=4):
+        """Like fn(), but the returned node's body also contains the bodies of the helper functions
+        of the *same file* that the function calls (free functions, `Self::f`, `Type::f`,
+        `self.f(..)`), transitively: a table (`match` over an enum, a sequence of builder calls)
+        that a maintainer moved into a private helper is still found.  The original node is
+        returned unchanged when there is no such helper."""
+        r = self.find_fns(qual, file)
+        if len(r) != 1:
+            raise facts.FactsError('AST anchor %r (%s): expected one fn, found %d %s'
+                                   % (qual, file, len(r), [(p, q) for p, q, _ in r][:4]))
+        path, q0, node = r[0]
+        local = {}
+        for (p, q, n) in self.fns:
+            if p == path and n.get('body') and n is not node:
+                local.setdefault(q.split('::')[-1], []).append((q, n))
+        seen = {id(node)}
+        extra = []
+        work = [(node, 0)]
+        while work:
+            cur, depth = work.pop(0)
+            if depth >= max_depth or not cur.get('body'):
+                continue
+            names = []
+            for x in walk(cur['body'], into_items=False):
+                if not isinstance(x, dict):
+                    continue
+                if x.get('k') == 'call':
+                    pth = (x.get('func') or {}).get('path')
+                    if pth:
+                        names.append(last_seg(pth))
+                elif x.get('k') == 'mcall' and (x.get('recv') or {}).get('path') in ('self', 'Self'):
+                    names.append(x['method'])
+            for nm in names:
+                cands = local.get(nm, [])
+                if len(cands) != 1:
+                    continue
+                hn = cands[0][1]
+                if id(hn) in seen:
+                    continue
+                seen.add(id(hn))
+                extra.append(hn)
+                work.append((hn, depth + 1))
+        if not extra:
+            return node
+        merged = dict(node)
+        merged['helpers'] = [h['name'] for h in extra]
+        merged['body'] = {'k': 'block', 'l': node['body'].get('l'), 'c': node['body'].get('c'),
+                          'el': node['body'].get('el'),
+                          'stmts': [node['body']] + [h['body'] for h in extra]}
+        return merged
+
     def struct(self, name, file=None):
         r = [(p, n) for (p, n) in self.structs.get(name, []) if not file or p.endswith(file)]
         if len(r) != 1:
